@@ -19,7 +19,7 @@ fn main() {
     let r = std::panic::catch_unwind(f);
     match r {
         Ok(()) => {
-            println!("PASSED (values left: {})", vharness::shim::remaining());
+            println!("PASSED (values left: {}, padded: {})", vharness::shim::remaining(), vharness::shim::padded());
             std::process::exit(0)
         }
         Err(e) => {
